@@ -412,8 +412,16 @@ func (x *executor) pkgForKey(key string) *types.Package {
 
 // ---- abstract state tokens ---------------------------------------------------
 
-func (x *executor) tokenOf(st *state, key string) *T {
+func tokenKey(key string) string {
 	key = strings.TrimPrefix(key, "*")
+	if i := strings.LastIndex(key, "."); i >= 0 {
+		key = key[i+1:]
+	}
+	return key
+}
+
+func (x *executor) tokenOf(st *state, key string) *T {
+	key = tokenKey(key)
 	if t, ok := st.tokens[key]; ok {
 		return t
 	}
@@ -423,6 +431,7 @@ func (x *executor) tokenOf(st *state, key string) *T {
 }
 
 func (x *executor) refreshToken(st *state, key string) {
+	key = tokenKey(key)
 	st.tokens[key] = x.c.d.fresh("tok_"+key, "Int")
 }
 
